@@ -345,7 +345,7 @@ func (b *Reader) ReadSlice(delim byte) (line []byte, err error) {
 			line := b.buf[0 : n+i+1]
 			b.r = n + i + 1
 
-			b.TotalRead += i + 1
+			b.TotalRead += n + i + 1
 
 			return line, nil
 		}
